@@ -65,15 +65,22 @@ def line(c):
     return "totalistic n=%s k=%d rule=%d" % (fmt.omat(c["n"]), c["k"], c["rule"])
 
 
+DTS = ["int64", "uint8", "int32", "uint16", "int8", "uint64", "int16"]
+
+
 def make_n(c):
-    if c["shape"] == "1d":
-        return np.array(c["n"][0])
     flat = [x for r in c["n"] for x in r]
+    vals = [x for x in flat if x is not None]
+    dt = DTS[(sum(vals) + len(flat) + c["k"]) % len(DTS)]
+    if c["shape"] == "1d":
+        return np.array(c["n"][0], dtype=dt)
     if any(x is None for x in flat):
-        data = np.array([[0 if x is None else x for x in r] for r in c["n"]])
+        # the cells under the mask hold data too (whatever the lattice has there): they must not count
+        fill = (sum(vals) * 7 + 3) % max(2, c["k"])
+        data = np.array([[fill if x is None else x for x in r] for r in c["n"]], dtype=dt)
         mask = np.array([[x is None for x in r] for r in c["n"]])
         return np.ma.masked_array(data, mask)
-    return np.array(c["n"])
+    return np.array(c["n"], dtype=dt)
 
 
 def call(c, shared=None):
